@@ -385,6 +385,14 @@ func (s *Session) Exec(line string) (obs string, viol string) {
 			if found && err == nil {
 				got = s.Cfg.ValNat(v)
 			}
+		case "agg":
+			var v AV
+			found, err = m.Get(s.ctx, s.Cfg.Key(k), &v)
+			if found && err == nil {
+				got = s.Cfg.ValNat(v)
+			}
+		default:
+			panic("get: value kind " + s.Cfg.VKind)
 		}
 		if err != nil {
 			return errClass(err), "lookup failed on a healthy store: " + err.Error()
